@@ -173,7 +173,12 @@ func cmdCheck(args []string) {
 				todo = append(todo, lit)
 			}
 		}
-		for _, ln := range u.Uses {
+		lemmaNames := append([]string(nil), u.Uses...)
+		for ln := range res.Run.usedLemmas {
+			lemmaNames = append(lemmaNames, ln)
+		}
+		sort.Strings(lemmaNames)
+		for _, ln := range lemmaNames {
 			if !seen["lemma."+ln] {
 				seen["lemma."+ln] = true
 				for _, ax := range p.Axioms {
@@ -189,7 +194,7 @@ func cmdCheck(args []string) {
 	for _, e := range p.SpecErr {
 		limits = append(limits, "spec: "+e)
 	}
-	outs := dischargeAll(solver, allObls, 16)
+	outs := dischargeAll(solver, allObls, 12)
 	agg := aggregate(outs)
 
 	replayDir := filepath.Join(vd, "out", "replay")
